@@ -32,12 +32,12 @@ pub fn run(ctx: &RunCtx) -> Outcome {
             "C02" => api::fuzz_prop_stage(ctx, &mut o, Some(&c01::prop(true)), "C02-flags", runs),
             "C03" => api::fuzz_prop_stage(ctx, &mut o, Some(&c03::Inject), "C03", runs),
             "C04" => api::fuzz_prop_stage(ctx, &mut o, Some(&c04::VsRegex { named: None }), "C04", runs),
-            "C07" => api::fuzz_prop_stage(ctx, &mut o, Some(&c07::Limits { only_pos0: false }), "C07", runs),
+            "C07" => api::fuzz_prop_stage(ctx, &mut o, Some(&c07::Limits { only_pos0: false }), "C07", runs / 3),
             "C08" => api::fuzz_prop_stage(ctx, &mut o, Some(&api::IterModel), "C08", runs),
             "C09" => api::fuzz_prop_stage(ctx, &mut o, Some(&api::Coherence), "C09", runs),
             "C10" => api::fuzz_prop_stage(ctx, &mut o, Some(&api::SplitModel), "C10", runs),
             "C11" => api::fuzz_prop_stage(ctx, &mut o, Some(&api::ReplaceModel), "C11", runs / 2),
-            "C14" => api::fuzz_prop_stage(ctx, &mut o, Some(&c14::Options), "C14", runs / 2),
+            "C14" => api::fuzz_prop_stage(ctx, &mut o, Some(&c14::Options), "C14", runs / 4),
             "C15" => api::fuzz_prop_stage(ctx, &mut o, Some(&c01::prop_cond()), "C15", runs),
             "C12" | "C17" | "C20" => api::fuzz_prop_stage::<api::Safety>(ctx, &mut o, None, ctx.prop, if ctx.prop == "C17" { runs / 4 } else { runs * 4 }),
             _ => {}
